@@ -33,8 +33,14 @@ CASES = [
     ("authorization failure (403)", "elasticsearch.AuthorizationException", 403, "fatal"),
     ("serialization error (other transport error)", "elasticsearch.SerializationError", None, "fatal"),
     ("generic transport error", "elastic_transport.TransportError", None, "fatal"),
-    ("bulk error, every item status retryable", "elasticsearch.helpers.BulkIndexError", "all-retryable", "transient"),
-    ("bulk error, some item status not retryable", "elasticsearch.helpers.BulkIndexError", "some-unretryable", "fatal"),
+    ("bulk error, item status 429", "elasticsearch.helpers.BulkIndexError", ("item", 429), "transient"),
+    ("bulk error, item status 502", "elasticsearch.helpers.BulkIndexError", ("item", 502), "transient"),
+    ("bulk error, item status 503", "elasticsearch.helpers.BulkIndexError", ("item", 503), "transient"),
+    ("bulk error, item status 504", "elasticsearch.helpers.BulkIndexError", ("item", 504), "transient"),
+    ("bulk error, item status 400", "elasticsearch.helpers.BulkIndexError", ("item", 400), "fatal"),
+    ("bulk error, item status 409", "elasticsearch.helpers.BulkIndexError", ("item", 409), "fatal"),
+    ("bulk error, item status 500", "elasticsearch.helpers.BulkIndexError", ("item", 500), "fatal"),
+    ("bulk error, item without status", "elasticsearch.helpers.BulkIndexError", ("item", None), "fatal"),
 ]
 
 _OPS = {"<": operator.lt, "<=": operator.le, ">": operator.gt, ">=": operator.ge, "==": operator.eq, "!=": operator.ne}
@@ -138,6 +144,18 @@ def run(chk):
     tcalls = [n for n in walk_body(gd) if isinstance(n, ast.Call) and u(n.func) == tparam]
     chk.ob("O17.2", "single call site of target", len(tcalls) == 1, tcalls[0] if tcalls else gd, f"{len(tcalls)} call(s)")
 
+    # a retry re-sends the SAME arguments: nothing single-use may be handed to the guard
+    for name, f in em.items():
+        fdefs2 = local_defs(f)
+        for c in source.calls_in(f):
+            if u(c.func) == "self.guarded":
+                for a in list(c.args[1:]) + [k.value for k in c.keywords]:
+                    e = source.inline_node(a, fdefs2) if not isinstance(a, ast.Starred) else a
+                    single = isinstance(e, ast.GeneratorExp) or (isinstance(e, ast.Call) and dotted(e.func) in ("filter", "map", "iter", "zip", "reversed", "enumerate", "itertools.chain", "itertools.islice"))
+                    if single:
+                        chk.ob("O17.2", f"EsClient.{name}: argument `{short(a, 40)}` handed to the guard is re-iterable", False, c,
+                               f"`{short(e, 60)}` is a single-use iterator: the first attempt consumes it and every retry sends nothing yet reports success")
+
     # ---- O17.3 budget and back-off ------------------------------------------------------------------------------------------------------------------------
     chk.rule("O17.3", "counter starts at 0 and is incremented exactly once per iteration before the attempt; simulating the extracted loop/handler comparisons gives 1 + 10 attempts and "
              "exhaustion ends in a raise (never a silent loop exit); the sleep duration is exponential in the counter and every retry path sleeps it", 6,
@@ -235,6 +253,7 @@ def run(chk):
     others = [n for n in ast.walk(met.tree) if isinstance(n, (ast.Assign, ast.AugAssign)) and any(isinstance(t, ast.Attribute) and t.attr == "retryable_status_codes" for t in (n.targets if isinstance(n, ast.Assign) else [n.target])) and n not in sets]
     others += [n for n in ast.walk(met.tree) if isinstance(n, ast.Call) and isinstance(n.func, ast.Attribute) and n.func.attr in ("append", "extend", "add", "remove") and last_attr(n.func.value) == "retryable_status_codes"]
     chk.ob("O17.4", "retryable status set never modified", not others, others[0] if others else EC, "")
+    code_set = {e.value for e in sets[0].value.elts} if sets and isinstance(sets[0].value, (ast.List, ast.Set, ast.Tuple)) and all(isinstance(e, ast.Constant) for e in sets[0].value.elts) else set(RETRYABLE)
     handlers = [(h, handler_type_names(h, met)) for h in T.handlers]
     # `from elastic_transport import ApiError, TransportError` inside the function
     local_imp = {}
@@ -262,13 +281,31 @@ def run(chk):
             if cmp_fn(n) is not None and any(n is a or u(n) == u(a) for _, a in budget_tests):
                 return budget
             if ev and t in (f"{ev}.status_code in self.retryable_status_codes",):
-                return status in RETRYABLE
+                return status in code_set
             if ev and t in (f"{ev}.status_code not in self.retryable_status_codes",):
-                return status not in RETRYABLE
-            if isinstance(n, ast.Compare) and isinstance(n.ops[0], (ast.In, ast.NotIn)) and u(n.comparators[0]) == "self.retryable_status_codes":
-                # item-level test inside the bulk handler's search loop
-                bad = status == "some-unretryable"
-                return bad if isinstance(n.ops[0], ast.NotIn) else not bad
+                return status not in code_set
+            if isinstance(n, ast.Compare) and len(n.ops) == 1 and isinstance(status, tuple) and ".get('status'" in u(n.left):
+                # item-level test inside the bulk handler's loop, evaluated for the single failed item of this abstract case
+                item = status[1]
+                cmpv = n.comparators[0]
+                if u(cmpv) == "self.retryable_status_codes":
+                    rhs = set(code_set)
+                elif isinstance(cmpv, ast.Constant):
+                    rhs = cmpv.value
+                elif isinstance(cmpv, (ast.List, ast.Tuple, ast.Set)) and all(isinstance(e, ast.Constant) for e in cmpv.elts):
+                    rhs = {e.value for e in cmpv.elts}
+                else:
+                    return None
+                op = n.ops[0]
+                if isinstance(op, ast.In) and isinstance(rhs, set):
+                    return item in rhs
+                if isinstance(op, ast.NotIn) and isinstance(rhs, set):
+                    return item not in rhs
+                if isinstance(op, ast.Eq) and not isinstance(rhs, set):
+                    return item == rhs
+                if isinstance(op, ast.NotEq) and not isinstance(rhs, set):
+                    return item != rhs
+                return None
             if ev and t in (f"{ev}.errors", "e.errors"):
                 return True
             return None
@@ -356,6 +393,8 @@ VARIANTS = [
     V("api arm ignores the status set", "break", _M, "                if e.status_code in self.retryable_status_codes and execution_count <= max_execution_count:", "                if execution_count <= max_execution_count:", "O17.4"),
     V("transport arm swallowed", "break", _M, "                self.logger.exception(msg)\n                # this does not necessarily mean it's a system setup problem...\n                raise exceptions.RallyError(msg)\n\n\nclass EsClientFactory", "                self.logger.exception(msg)\n\n\nclass EsClientFactory", "O17.4"),
     V("handler budget one short", "break", _M, "            except elasticsearch.exceptions.ConnectionTimeout as e:\n                if execution_count <= max_execution_count:", "            except elasticsearch.exceptions.ConnectionTimeout as e:\n                if execution_count < max_execution_count:", "O17.3"),
+    V("seed m1: single-use iterator handed to the guard", "break", _M, "        self.guarded(elasticsearch.helpers.bulk, self._client, items, index=index, chunk_size=5000)", "        self.guarded(elasticsearch.helpers.bulk, self._client, filter(None, items), index=index, chunk_size=5000)", "O17.2"),
+    V("seed m2: only item status 429 retryable", "break", _M, "                    if err.get(\"index\", {}).get(\"status\", None) not in self.retryable_status_codes:", "                    if err.get(\"index\", {}).get(\"status\", None) != 429:", "O17.4"),
     # preserving
     V("1 << k back-off", "keep", _M, "            time_to_sleep = 2**execution_count + random.random()", "            time_to_sleep = (1 << execution_count) + random.random()"),
     V("set literal", "keep", _M, "        self.retryable_status_codes = [502, 503, 504, 429]", "        self.retryable_status_codes = {429, 502, 503, 504}"),
